@@ -336,8 +336,7 @@ def check_C15(ctx):
     quick = ctx.tier == "quick"
     n = 150 if quick else 2000
     fams = []
-    for nm, alpha, extra in [("arr", "OpsArrNoMove", ARR), ("cnt", "OpsCnt", dict(kinds=["n"], init=[])),
-                             ("arrmv", "OpsArr", ARR)]:
+    for nm, alpha, extra in [("arr", "OpsArrNoMove", ARR), ("cnt", "OpsCnt", dict(kinds=["n"], init=[]))]:
         fams.append(dict(name="undo-" + nm, alphabet=alpha, clients="Seq2", editors=E2, feat='{"idle", "undo"}', maxundo=3, maxedits=3, weight=4, **extra))
     viols = sim_families(ctx, fams, C15_TAGS, n)
     if ctx.counters.get("undos", 0) == 0:
